@@ -38,6 +38,7 @@ pub struct OracleState {
     pub observers: Vec<crate::observer::Observer>,
     pub ext_sender: Option<(SignatureSecretKey, SigningIdentity)>,
     pub ext_proposals: BTreeSet<u64>,
+    pub codec_seq: u64,
 }
 
 #[derive(Default)]
@@ -840,6 +841,7 @@ pub fn do_special(w: &mut World, kind: &str, a: u64, b: u64, c: u64) -> VResult<
         "apply_detached" => do_apply_detached(w, a as usize, c as usize, b),
         "bad_join" => do_bad_join(w, a, b as usize, c as usize),
         "branch" => crate::c17::do_branch(w, a as usize, b, c),
+        "sflip" => crate::codec::do_stored_flip(w, a as usize, c as usize, b),
         "observe" => crate::observer::do_observe(w, a as usize, b),
         "obs_feed" => crate::observer::do_obs_feed(w, a as usize, b),
         "obs_snapshot" => crate::observer::do_obs_snapshot(w, a as usize),
@@ -1164,8 +1166,8 @@ pub fn after_ext_commit_built(_w: &mut World, _p: usize, _g: usize, _id: u64) ->
     Ok(())
 }
 
-pub fn on_wire(_w: &mut World, _bytes: &[u8], _kind: &str) -> VResult<()> {
-    Ok(())
+pub fn on_wire(w: &mut World, bytes: &[u8], kind: &str) -> VResult<()> {
+    crate::codec::on_wire(w, bytes, kind)
 }
 
 /// C05 oracle 1: no (key, nonce) pair is ever used twice by any member of the world
